@@ -323,6 +323,13 @@ impl ConnectionPool {
                 let old_pool_ref = get_pool(pool_name, &user.username);
                 let identifier = PoolIdentifier::new(pool_name, &user.username);
 
+                // A pool that gets rebuilt stays paused if it is paused now, and the RESUME that
+                // follows must reach the clients still waiting on the pool it replaces: the
+                // pause state is carried over.
+                let pause_state = old_pool_ref
+                    .as_ref()
+                    .map(|pool| (pool.paused.clone(), pool.paused_waiter.clone()));
+
                 if let Some(pool) = old_pool_ref {
                     // If the pool hasn't changed, get existing reference and insert it into the new_pools.
                     // We replace all pools at the end, but if the reference is kept, the pool won't get re-created (bb8).
@@ -590,8 +597,14 @@ impl ConnectionPool {
                         },
                     }),
                     validated: Arc::new(AtomicBool::new(false)),
-                    paused: Arc::new(AtomicBool::new(false)),
-                    paused_waiter: Arc::new(Notify::new()),
+                    paused: match &pause_state {
+                        Some((paused, _)) => paused.clone(),
+                        None => Arc::new(AtomicBool::new(false)),
+                    },
+                    paused_waiter: match &pause_state {
+                        Some((_, paused_waiter)) => paused_waiter.clone(),
+                        None => Arc::new(Notify::new()),
+                    },
                     prepared_statement_cache: match pool_config.prepared_statements_cache_size {
                         0 => None,
                         _ => Some(Arc::new(Mutex::new(PreparedStatementCache::new(
@@ -615,7 +628,18 @@ impl ConnectionPool {
             }
         }
 
+        let old_pools = get_all_pools();
+
         POOLS.store(Arc::new(new_pools.clone()));
+
+        // Clients held by a PAUSE on a pool that no longer exists would wait for ever:
+        // let them go, they are told that their pool is gone.
+        for (identifier, pool) in old_pools {
+            if !new_pools.contains_key(&identifier) {
+                pool.resume();
+            }
+        }
+
         Ok(())
     }
 
